@@ -118,6 +118,18 @@ def gen_cases(tier, seed):
                       'g': {'pr': 1, 'qr': m, 'pc': 1, 'qc': n, 'sr': 0, 'sc': 0, 'sq': 1, 'or': 0, 'oc': 0, 'M': m, 'K': n},
                       'unitary': rng.random() < 0.5, 'thm': False, 'full': True, 'big': [m, n],
                       'out': rng.random() < 0.3, 'scalar_args': rng.random() < 0.5})
+    # unitary inverse on a zero-padded full period (alpha = 1/K, K >= input size, shape = K): energy is conserved
+    for _ in range(200 if q else 1500):
+        m, n = rng.randint(1, 4), rng.randint(1, 4)
+        Kr, Kc = rng.randint(m, m + 3), rng.randint(n, n + 3)
+        if (Kr, Kc) == (m, n):
+            Kr += 1
+        N = lcm(8, Kr, Kc)
+        f = [[pix_terms(rng, N, 0.1) for _ in range(n)] for _ in range(m)]
+        cases.append({'k': 'inv', 'N': N, 'f': f, 'padded': True,
+                      'g': {'pr': 1, 'qr': Kr, 'pc': 1, 'qc': Kc, 'sr': 0, 'sc': 0, 'sq': 1, 'or': 0, 'oc': 0, 'M': Kr, 'K': Kc},
+                      'unitary': True, 'thm': rng.random() < 0.1 and N <= 24, 'full': False, 'big': [Kr, Kc],
+                      'out': rng.random() < 0.3, 'scalar_args': False})
     for i, c in enumerate(cases):
         c['id'] = i
     return cases
@@ -140,7 +152,7 @@ def call_impl(lentil, c):
                                   unitary=c['unitary'], out=out)
     else:
         # idft2 "called with the same sampling and the same normalisation flag"; shape defaults to F.shape
-        res = lentil.fourier.idft2(fin, alpha, unitary=c['unitary'], out=out)
+        res = lentil.fourier.idft2(fin, alpha, shape=shape if c.get('padded') else None, unitary=c['unitary'], out=out)
     return f, fin, res, out
 
 
@@ -153,6 +165,8 @@ def sig_of(c, kind):
 
 def check_case(ctx, lentil, c, e):
     N = c['N']
+    if c.get('padded'):
+        return check_padded_inverse(ctx, lentil, c, e)
     ring = ring_to_complex(e['out'], N)
     expected = ring * math.sqrt(e['nsq'][0] / e['nsq'][1]) / e['div']
     try:
@@ -189,6 +203,26 @@ def check_case(ctx, lentil, c, e):
             e_out = (np.abs(res) ** 2).sum()
             if not abs(e_in - e_out) <= TOL * (1 + e_in):
                 ctx.violation(sig_of(c, 'energy'), {'geometry': g, 'in': float(e_in), 'out': float(e_out)}, case={'case': c, 'exp': e})
+
+
+def check_padded_inverse(ctx, lentil, c, e):
+    """the statement fixes only the energy of the unitary inverse outside the exact full period"""
+    try:
+        f, fin, res, out = call_impl(lentil, c)
+    except Exception as ex:
+        ctx.violation(sig_of(c, type(ex).__name__), {'case': c, 'error': repr(ex)}, case={'case': c, 'exp': e})
+        return
+    e_in = float((np.abs(f) ** 2).sum())
+    e_out = float((np.abs(res) ** 2).sum())
+    # the same energy as the forward transform called with the same arguments delivers
+    g = c['g']
+    fwd = lentil.fourier.dft2(f, (1 / g['qr'], 1 / g['qc']), shape=(g['M'], g['K']), unitary=True)
+    e_fwd = float((np.abs(fwd) ** 2).sum())
+    if abs(e_out - e_in) > TOL * (1 + e_in) or abs(e_out - e_fwd) > TOL * (1 + e_in):
+        s = sig_of(c, 'energy-padded-inverse')
+        ctx.violation(s, {'geometry': g, 'input_energy': e_in, 'idft2_energy': e_out, 'dft2_energy': e_fwd}, case={'case': c, 'exp': e})
+    if c['out'] and (out is None or not np.array_equal(out, res)):
+        ctx.violation(sig_of(c, 'out-buffer-not-written'), {'geometry': g}, case={'case': c, 'exp': e})
 
 
 def run(ctx):
